@@ -255,8 +255,7 @@ func (W) Exec(p *world.Plan, env *world.Env) {
 						simcore.NoteCallerOnRWX()
 						env.Check()
 						if msg := img.CheckPages(true); msg != "" {
-							env.Res.At = fmt.Sprintf("caller%d op#%d", idx, i)
-							env.Fail("pages/not-executable-midwrite", "%s", msg)
+							env.FailAt(fmt.Sprintf("caller%d op#%d", idx, i), "pages/not-executable-midwrite", "%s", msg)
 						}
 					}
 					// steady calls: the mocked result every time
@@ -310,8 +309,7 @@ func (W) Exec(p *world.Plan, env *world.Env) {
 		}
 		env.Check()
 		if msg := img.Check(steady.Regions()); msg != "" {
-			env.Res.At = "quiescence"
-			env.Fail("image/not-restored", "%s", msg)
+			env.FailAt("quiescence", "image/not-restored", "%s", msg)
 		}
 	}()
 	env.Res.Nontriv = res.Stats.Switches > 0
